@@ -119,3 +119,51 @@ class Tracer:
         self._patched.clear()
         del _STACK[:]
         return False
+
+
+class DirectCall:
+    """Stands in for an indicator when a pattern/movement function is called directly at an index."""
+
+    def __init__(self, name):
+        self.name = name
+
+
+class direct_call:
+    def __init__(self, name, index):
+        self.entry = (DirectCall(name), index)
+
+    def __enter__(self):
+        _STACK.append(self.entry)
+
+    def __exit__(self, *exc):
+        _STACK.pop()
+        return False
+
+
+class ReadSink:
+    """Minimal sink for direct calls: counts reads and look-ahead reads without patching any class."""
+
+    def __init__(self):
+        self.reads = 0
+        self.lookahead_count = 0
+        self.lookahead = []
+
+    def note(self, positions, n):
+        ind, idx = _STACK[-1]
+        for p in positions:
+            self.reads += 1
+            if idx < p < n:
+                self.lookahead_count += 1
+                if len(self.lookahead) < 50:
+                    self.lookahead.append((ind.name, idx, p))
+
+    def __enter__(self):
+        global _SINK
+        self._prev = _SINK
+        _SINK = self
+        return self
+
+    def __exit__(self, *exc):
+        global _SINK
+        _SINK = self._prev
+        return False
